@@ -5,7 +5,7 @@ import logging
 import os
 from dataclasses import dataclass, field
 
-from . import xltypes, reader, parser, tokenizer
+from . import xltypes, reader, parser, tokenizer, utils
 
 
 @dataclass
@@ -227,6 +227,16 @@ class ModelCompiler:
         for name in self.defined_names:
             cell_address = self.defined_names[name]
             cell_address = cell_address.replace('$', '')
+            # Cells are addressed by the plain sheet name, the workbook
+            # quotes names that contain blanks or punctuation.
+            areas = []
+            for area in cell_address.split(','):
+                if '!' in area:
+                    sheet_str, coordinates = area.rsplit('!', 1)
+                    area = '{}!{}'.format(
+                        utils.resolve_sheet(sheet_str), coordinates)
+                areas.append(area)
+            cell_address = ','.join(areas)
 
             # a cell has an address like; Sheet1!A1
             if ':' not in cell_address:
